@@ -837,7 +837,7 @@ def run(ctx):
         CAP = int(m.group(1))
     ctx.cov["capacity_constant"] = CAP
     forbidden_gate(ctx, ["Base", "C20"])
-    ok, why = check_props(ctx, "C20/Props.v", ["C20/Harness.vo", "C20/Proofs.vo", "C20/ProofsR.vo", "C20/HarnessG.vo", "C20/ProofsW.vo"])
+    ok, why = check_props(ctx, "C20/Props.v", ["C20/Harness.vo", "C20/Proofs.vo", "C20/ProofsR.vo", "C20/HarnessG.vo", "C20/ProofsW.vo", "C20/WritersYaml.vo", "C20/ProofsChain.vo", "C20/HarnessChain.vo"])
     scratch = tempfile.mkdtemp(prefix="verif-c20-", dir="/tmp")
     try:
         cases = build_cases(ctx)
